@@ -189,7 +189,7 @@ def read_events(path):
     return out
 
 
-def sim_link(argv, workdir, plan, tag="run", env_extra=None, timeout=120, wild=None, pin=True,
+def sim_link(argv, workdir, plan, tag="run", env_extra=None, timeout=300, wild=None, pin=True,
              wait_descendants=True, preexec=None, pass_fds=(), ctl_dir=None, driver=None):
     """Runs the simulated wild with `argv` (arguments after the program name) in `workdir` under
     `plan`. Returns a RunResult. Waits for wild's background (forked) worker too."""
@@ -214,6 +214,9 @@ def sim_link(argv, workdir, plan, tag="run", env_extra=None, timeout=120, wild=N
     # --threads=1 or no --threads is given): derived from the plan so that it is replayed.
     env["WILD_SIM_DEFAULT_THREADS"] = str([1, 2, 3, 4][plan.seed % 4])
     env["LC_ALL"] = "C"
+    # Injected panics must not spend seconds symbolising a backtrace of the debug binary.
+    env["RUST_BACKTRACE"] = "0"
+    env.pop("RUST_LIB_BACKTRACE", None)
     if env_extra:
         for k, v in env_extra.items():
             if v is None:
